@@ -17,10 +17,25 @@ _mi_segment_page_start_from_slice mi_page_block_size mi_page_usable_block_size m
 mi_bsr mi_clz mi_ctz mi_os_page_align_areax mi_segment_info_size mi_align_up_ptr mi_align_down_ptr
 mi_slice_index mi_segment_commit_mask'''.split()
 
+ENTRY = '''mi_mul_overflow mi_count_size_overflow _mi_is_power_of_two _mi_align_up _mi_wsize_from_size mi_bin mi_clz mi_good_size
+mi_heap_malloc mi_heap_zalloc mi_heap_calloc mi_calloc mi_heap_mallocn mi_mallocn _mi_heap_malloc_zero _mi_heap_malloc_zero_ex mi_malloc mi_zalloc
+mi_heap_malloc_small mi_malloc_small mi_zalloc_small mi_heap_malloc_small_zero mi_find_page
+_mi_heap_realloc_zero mi_heap_realloc mi_heap_reallocn mi_heap_reallocf mi_heap_rezalloc mi_heap_recalloc
+mi_realloc mi_reallocn mi_reallocf mi_rezalloc mi_recalloc mi_expand
+mi_reallocarray mi_reallocarr mi_posix_memalign mi_memalign mi_valloc mi_pvalloc mi_aligned_alloc
+mi_malloc_is_naturally_aligned mi_heap_malloc_zero_aligned_at mi_heap_malloc_zero_aligned_at_generic mi_heap_malloc_zero_aligned_at_overalloc
+mi_heap_malloc_aligned_at mi_heap_malloc_aligned mi_heap_zalloc_aligned_at mi_heap_zalloc_aligned mi_heap_calloc_aligned_at mi_heap_calloc_aligned
+mi_malloc_aligned_at mi_malloc_aligned mi_zalloc_aligned_at mi_zalloc_aligned mi_calloc_aligned_at mi_calloc_aligned
+mi_heap_realloc_zero_aligned_at mi_heap_realloc_zero_aligned mi_heap_realloc_aligned_at mi_heap_realloc_aligned mi_heap_rezalloc_aligned_at mi_heap_rezalloc_aligned
+mi_heap_recalloc_aligned_at mi_heap_recalloc_aligned mi_realloc_aligned_at mi_realloc_aligned mi_rezalloc_aligned_at mi_rezalloc_aligned mi_recalloc_aligned_at mi_recalloc_aligned
+mi_heap_strdup mi_heap_strndup mi_strdup mi_strndup mi_free_size mi_free_size_aligned mi_free_aligned mi_cfree mi_malloc_size mi_malloc_usable_size mi_malloc_good_size mi_usable_size
+mi_heap_alloc_new mi_heap_alloc_new_n mi_new mi_new_n mi_new_nothrow'''.split()
+
 GROUPS = {
     # name: dict(kind, ...)
     'Arith': dict(kind='translate', flags=RELEASE, names=ARITH, mem=False),
     'Tables': dict(kind='tables', flags=RELEASE),
+    'Entry': dict(kind='translate', flags=RELEASE, names=ENTRY, mem=False, explicit_in=('mi_posix_memalign',), namespace='GenE'),
 }
 
 HEADER = 'set_option linter.unusedVariables false\nset_option maxRecDepth 4096'
